@@ -12,6 +12,7 @@ from engine import astq as Q
 from engine.cfg import walk_noscope
 from engine.pyexpr import to_sympy, PyExprError
 from engine.pysrc import Repo, F, dotted, src, calls_in, literal
+from rules import tdscommon
 from engine.report import AnalysisError
 
 DAEINT = "andes/routines/daeint.py"
@@ -310,46 +311,39 @@ def rule_stepsize(ctx, repo):
               "with fixt=1 a path reaches `self.h = self.deltat` with a step size not bounded by config.tstep "
               "(last write is not config.tstep / min(config.tstep, .) / *= c<=1 / 0)", f.W(bad[0]) if bad else f.W())
 
-    # after h := deltat, h is only decreased: tf-clip, then switch-clip; both post-dominate
-    g = f.g
-    clip_tf = [n for n in g.nodes() if g.data(n)["kind"] == "stmt" and (
-        Q.match("self.h = max(min(self.h, config.tf - system.dae.t), 0)", g.data(n)["ast"]) or
-        Q.match("self.h = min(self.h, config.tf - system.dae.t)", g.data(n)["ast"]))]
-    ok, wit = f.after(hs, clip_tf)
-    ctx.check(ok, "C04.stepsize", "TDS.calc_h/clip-tf", "h = max(min(h, tf - t), 0) post-dominates h := deltat",
-              "a step can jump past the end time: no min(h, tf - t) clip after h := deltat " + wit, f.W())
-    # switch clip
-    sw_tests = []
-    for tn in g.nodes():
-        d = g.data(tn)
-        if d["kind"] == "test" and Q.match("system.dae.t + self.h > system.switch_times[self._switch_idx]", d["ast"].test):
-            sw_tests.append(tn)
-    clip_sw = [n for n in g.nodes() if g.data(n)["kind"] == "stmt" and
-               Q.match("self.h = system.switch_times[self._switch_idx] - system.dae.t", g.data(n)["ast"])]
-    ok = bool(sw_tests) and bool(clip_sw) and all(any(g.guarded_by(c, t, "true") for t in sw_tests) for c in clip_sw)
-    # the test itself is reached on every path where events remain: guarded only by `_switch_idx < n_switches`
-    if ok:
-        outer = [tn for tn in g.nodes() if g.data(tn)["kind"] == "test" and
-                 Q.match("self._switch_idx < system.n_switches", g.data(tn)["ast"].test)]
-        ok = any(g.guarded_by(sw_tests[0], o, "true") for o in outer)
-        # from the tf clip, the only way to bypass the switch test is the false edge of that outer guard
-        if ok and clip_tf:
-            o = [x for x in outer if g.guarded_by(sw_tests[0], x, "true")][0]
-            ok = g.must_pass(clip_tf[0], g.exit, [o])[0]
-    ctx.check(ok, "C04.stepsize", "TDS.calc_h/clip-switch",
-              "t + h > switch_times[idx] => h = switch_times[idx] - t, reached whenever events remain",
-              "a step can cross the next event time: switch-time clip missing, unguarded or bypassable", f.W())
-    # no other write to self.h after the clips except the CSV-replay exception
-    later = []
-    for n in f.assigns("self.h"):
-        if n in hs or n in clip_tf or n in clip_sw:
-            continue
-        csv = [tn for tn in g.nodes() if g.data(tn)["kind"] == "test" and "data_csv" in src(g.data(tn)["ast"].test)]
-        if any(g.guarded_by(n, t, "true") for t in csv):
-            continue   # frozen exception: CSV replay takes its step from the data
-        later.append(n)
-    ctx.check(not later, "C04.stepsize", "TDS.calc_h/no-other-writes", "h written only by deltat, the two clips, and CSV replay",
-              "additional write to self.h at %s can undo the clipping" % [f.W(n) for n in later], f.W())
+    # the clipping of the step, decided by interpretation: calc_h is run by the scalar interpreter (engine/minterp.py) on one
+    # representative per ordering of (proposed step D, time left to tf, time left to the next event), with and without a pending event;
+    # the code only compares these quantities and subtracts them, so the orderings are exhaustive.  Post-condition:
+    #     h == max(min(D, tf - t, [event - t]), 0)   -- never past the end time, never across an event, not shrunk without need
+    from engine.minterp import MethodInterp
+    from engine.ordertype import Unsupported
+    import itertools
+    bad, n_cases, undec = [], 0, None
+    T0 = 1.0
+    for D, left_tf, left_ev, has_ev in itertools.product((1.0, 2.0, 3.0), (-1.0, 0.0, 0.5, 1.0, 1.5, 2.0, 2.5, 3.0, 3.5),
+                                                         (0.5, 1.0, 1.5, 2.0, 2.5, 3.0, 3.5), (True, False)):
+        state = {"self.system.dae.t": T0, "self.config.tf": T0 + left_tf, "self.config.t0": 0.0, "self.config.fixt": 1, "self.config.shrinkt": 1,
+                 "self.config.tstep": D, "self.converged": True, "self.niter": 3, "self.deltat": D, "self.deltatmax": 100.0, "self.deltatmin": 1e-3,
+                 "self._switch_idx": 0, "self.system.n_switches": 1 if has_ev else 0, "self.system.switch_times": T0 + left_ev,
+                 "self.data_csv": None, "self.chatter": False, "self.busted": False, "self.err_msg": "", "self.h": 0.0, "resume": False,
+                 "self.k_csv": 0, "self.system": 0, "self.config": 0, "self.system.dae": 0}
+        mi = MethodInterp(repo, "TDS", TDS, state, skip_calls=("_calc_h_first",))
+        try:
+            mi.call_in("TDS", "calc_h", kwargs={"resume": False})
+        except Unsupported as ex:
+            undec = str(ex)
+            break
+        n_cases += 1
+        h = mi.s.get("self.h")
+        want = max(min([D, left_tf] + ([left_ev] if has_ev else [])), 0.0)
+        if h is None or abs(float(h) - want) > 1e-12:
+            bad.append("proposed step %g, %g left to tf, %s: h = %s, expected %g" % (
+                D, left_tf, ("next event in %g" % left_ev) if has_ev else "no pending event", h, want))
+    if undec:
+        ctx.undecided("C04.stepsize", "TDS.calc_h/clip", "interpreter: %s" % undec, f.W())
+    else:
+        ctx.check(not bad, "C04.stepsize", "TDS.calc_h/clip", "%d orderings: h == max(min(D, tf - t, event - t), 0)" % n_cases,
+                  "%d of %d orderings violate the clipping contract; first: %s" % (len(bad), n_cases, bad[0] if bad else ""), f.W())
     # variable-step growth is bounded by deltatmax and shrink by deltatmin
     ok = Q.has("self.deltat = min(self.deltat * 1.1, self.deltatmax)", f.fn) or Q.has("self.deltat = min(self.deltat * $c, self.deltatmax)", f.fn)
     ctx.check(ok, "C04.stepsize", "TDS.calc_h/growth-bound", "growth clipped by deltatmax",
@@ -371,8 +365,7 @@ def rule_run_loop(ctx, repo):
     back = [n for n in g.nodes() if g.data(n)["kind"] == "stmt" and Q.match("dae.t -= self.h", g.data(n)["ast"])
             and g.guarded_by(n, t, "false")]
     ch = [n for n in r.calls("self.calc_h") if g.guarded_by(n, t, "false")]
-    fwd = [n for n in g.nodes() if g.data(n)["kind"] == "stmt" and Q.match("dae.t += self.h", g.data(n)["ast"])
-           and g.guarded_by(n, t, "false")]
+    fwd = [n for n in tdscommon.clock_nodes(repo, r) if g.guarded_by(n, t, "false")]
     ok = bool(back and ch and fwd)
     if ok:
         ok = g.must_pass(g.succ_label(t, "false")[0], ch[0], back)[0] or g.succ_label(t, "false")[0] in back
@@ -388,8 +381,7 @@ def rule_run_loop(ctx, repo):
     # accepted step: store -> do_switch -> calc_h -> t += h
     ds = [n for n in r.calls("self.do_switch") if g.guarded_by(n, t, "true")]
     ch2 = [n for n in r.calls("self.calc_h") if g.guarded_by(n, t, "true")]
-    adv = [n for n in g.nodes() if g.data(n)["kind"] == "stmt" and Q.match("dae.t += self.h", g.data(n)["ast"])
-           and g.guarded_by(n, t, "true")]
+    adv = [n for n in tdscommon.clock_nodes(repo, r) if g.guarded_by(n, t, "true")]
     ok = bool(ds and ch2 and adv)
     if ok:
         ok = g.must_pass(t, ch2[0], ds)[0] and g.must_pass(t, adv[0], ch2)[0]
@@ -412,8 +404,8 @@ def run(ctx):
     ctx.rule("C04.sign", "Ac*inc = q, x -= inc", 2)
     ctx.rule("C04.restore", "x0,y0,f0 saved before the loop; restored with vars_to_models on every non-converged exit; time rewound "
              "on rejection; zero step refused", 10)
-    ctx.rule("C04.stepsize", "abstract interpretation of calc_h under fixt=1: deltat <= tstep at h := deltat; tf and switch clips "
-             "post-dominate; no other writes to h (CSV replay excepted)", 8)
+    ctx.rule("C04.stepsize", "abstract interpretation of calc_h: under fixt=1 deltat <= tstep at h := deltat; calc_h interpreted on every ordering "
+             "of (proposed step, time to tf, time to the next event): h == max(min(...), 0)", 6)
     ctx.rule("C04.accept", "converged=True only under |max increment| <= bare tol (chatter escape frozen); failure exits", 3)
     ctx.assume("per-step residual satisfaction, convergence order and reaching tf are numerical: declined")
     ctx.assume("kvxopt sparse([[a,b],[c,d]]) = block columns; Teye = diag(Tf)")
